@@ -123,6 +123,12 @@ check("C17", "fault_enumeration", "fault injection: Hypothesis-generated write s
       "Exhaustive over the crash points of each explored scenario; scenarios themselves are sampled. Assumes the file system applies the recorded effects in order (no write-back reordering).",
       "DESIGN.md section 2, C17")
 
+check("C20", "exploration", "configuration-level property-based testing: generated configuration packages (Hypothesis + 15 canonical single-dimension Specs), each exercised by the config-generic cores of C01-C08 and C11 in subprocesses",
+      "Specs derived from the demo Spec (renamed keys / basetypes / codes / leaf key, inserted or removed levels, other separators, folders, vocabularies, digit patterns, states and mappings, third basetype, third path configuration) "
+      "are rendered to complete configuration packages; the sub-checks take their oracles from the reference model built on the loaded raw configuration, so nothing in them names a demo key.",
+      "Sub-checks run at reduced example counts (depth is in C01-C11). The generator only emits configurations that follow the documented conventions.",
+      "DESIGN.md section 2, C20")
+
 NOT_APPLICABLE = {
 }
 
